@@ -467,6 +467,8 @@ class Corr:
         self.harness_errors = []      # ties that could not be established
         self.exhaustive = False
         self.notes = []
+        self.outside = 0              # differences on requests outside the property's domain (not a broken tie)
+        self.outside_samples = []
 
     def count(self, key, bucket=None):
         self.evaluations += 1
@@ -476,9 +478,23 @@ class Corr:
         if bucket is not None:
             self.distribution[bucket] = self.distribution.get(bucket, 0) + 1
 
-    def compare(self, reqs, impl, model, limit=50):
+    def compare(self, reqs, impl, model, limit=50, in_domain=None, model_ub=None):
+        """record the requests on which implementation and model answer differently.
+        in_domain(request) -> bool: requests outside the domain the property (and its theorems) quantify over are still
+        run and compared, but a difference there is NOT a broken tie: the property says nothing about them, so a change
+        of the code's behaviour there (a new guard, another exception class) must not raise an alarm.
+        model_ub(model_answer) -> bool: the model marks the unchanged code's behaviour on this request as undefined (an
+        out-of-bounds access, NULL call, ...); whatever the current code does instead refines it.  Both kinds are counted
+        and sampled into the evidence (`outside_domain_differences`)."""
         for r, a, b in zip(reqs, impl, model):
-            if a != b and len(self.disagreements) < limit:
+            if a == b:
+                continue
+            if (in_domain is not None and not in_domain(r)) or (model_ub is not None and model_ub(b)):
+                self.outside += 1
+                if len(self.outside_samples) < 5:
+                    self.outside_samples.append({"request": str(r)[:300], "impl": str(a)[:200], "model": str(b)[:200]})
+                continue
+            if len(self.disagreements) < limit:
                 self.disagreements.append({"request": r, "impl": a, "model": b})
 
 
@@ -616,6 +632,7 @@ def proof_coverage(pres, corr, extra=None):
             "harness_errors": corr.harness_errors,
             "exhaustive": corr.exhaustive,
             "notes": corr.notes,
+            "outside_domain_differences": {"count": corr.outside, "samples": corr.outside_samples},
         })
     if extra:
         cov.update(extra)
@@ -669,6 +686,13 @@ def flow(run, mod):
         if pres.ok:
             raise
         corr.harness_errors.append("driver unavailable (Lean build failed)")
+    except (subprocess.TimeoutExpired, KeyboardInterrupt):
+        raise
+    except Exception as e:
+        # the implementation answered something the check's own bookkeeping cannot digest (output of a shape the
+        # unchanged code never produces): the tie could not be established - not a crash of the check
+        corr.harness_errors.append("correspondence aborted: %s: %s | %s" % (
+            type(e).__name__, str(e)[-300:], traceback.format_exc()[-700:]))
     for he in corr.harness_errors:
         broken.append({"tie": "correspondence-harness", "error": he})
     if corr.disagreements:
@@ -686,6 +710,13 @@ def flow(run, mod):
         found = mod.search(run, corr, deep=bool(broken))
     except HarnessError as e:
         broken.append({"tie": "oracle-harness", "error": str(e)[-1500:]})
+    except (InternalError, subprocess.TimeoutExpired, KeyboardInterrupt):
+        raise
+    except Exception as e:
+        if not broken:
+            raise InternalError("property oracle crashed: %s" % traceback.format_exc()[-1500:])
+        broken.append({"tie": "oracle-harness", "error": "oracle aborted on the implementation's output: %s: %s | %s" % (
+            type(e).__name__, str(e)[-300:], traceback.format_exc()[-700:])})
     if broken and not any(v["kind"] == "failing-input" for v in run.violations):
         if not (run.known_hits and all_broken_explained(run, broken, mod)):
             run.report_unproved(broken)
